@@ -67,7 +67,10 @@ func (s *slotObj) applyStep(st stateStep) string {
 func (s *slotObj) rebuild() *slotObj {
 	t := doDecode(s.kind, s.nilrecv, s.vec)
 	for _, st := range s.steps {
-		t.applyStep(st)
+		func() {
+			defer func() { _ = recover() }() // a step that panicked on the aged object panics here too
+			t.applyStep(st)
+		}()
 	}
 	return t
 }
@@ -326,9 +329,13 @@ func (c *taskCtx) execOp(op *Op) string {
 				return "skip"
 			}
 			st := stateStep{redec: true, vec: op.Vec}
+			// recorded before it is applied: a decode that panics half-way has
+			// still changed the receiver, and the rebuilt twin must go through the
+			// same aborted step (the panic itself is C12's subject, not C15's)
+			sl.steps = append(sl.steps, st)
 			r := sl.applyStep(st)
-			if r != "skip" {
-				sl.steps = append(sl.steps, st)
+			if r == "skip" {
+				sl.steps = sl.steps[:len(sl.steps)-1]
 			}
 			return r
 		case "set":
@@ -360,9 +367,10 @@ func (c *taskCtx) execOp(op *Op) string {
 				val = inv.Int()
 			}
 			st := stateStep{field: f, val: val}
+			sl.steps = append(sl.steps, st)
 			r := sl.applyStep(st)
-			if r != "skip" {
-				sl.steps = append(sl.steps, st)
+			if r == "skip" {
+				sl.steps = sl.steps[:len(sl.steps)-1]
 			}
 			return r
 		}
